@@ -357,6 +357,10 @@ class C16(CheckBase):
             t = case['tpick'] % s.tracks
             sec = (case['tpick'] // 7) % s.spt
             argv = ['dump-sector', str(d), str(t), str(sec)]
+        if case['tpick'] % 3 == 0:
+            # --ui after (or before) --drive: a presentation option must not disturb the addressing
+            ui = ['--ui', ['acorn', 'watford', 'opus'][(case['tpick'] // 3) % 3]]
+            g = g + ui if (case['tpick'] // 9) % 3 else ui + g
         full = ['dfs'] + self.opts(hist) + g + argv
         r = ctx.sk.run(sb, exe, full)
         out.add_run(r)
